@@ -1,6 +1,6 @@
 (* Property C07 -- an EQL query translated to SQL selects the same entities as in-memory evaluation.
    Only statements, each closed by [exact].  Model: Orm/EqlToSql.v (translator, tree after the C07 fix: commits
-   5ffa83c f1c6930 6b20ce1 6e7d0db 7e47af0 f599ad3 20777ed 24ba119 c0600cf) over Orm/SqlAlg.v (what the statement means on SQLite --
+   5ffa83c f1c6930 6b20ce1 6e7d0db 7e47af0 f599ad3 20777ed 24ba119 c0600cf cbfdb2e 313603b 99b53a0) over Orm/SqlAlg.v (what the statement means on SQLite --
    compared, not proved); Spec: Orm/EqlToSqlSpec.v ([answers]).  Level: partial. *)
 From Coq Require Import List ZArith Bool.
 From Krrood Require Import Base.Sx Orm.EqlToSqlSpec Orm.SqlAlg Orm.EqlToSql Orm.EqlToSqlProofs Orm.EqlToSqlJoinProofs.
@@ -102,13 +102,16 @@ Theorem C07_refuted_noneref :      (* a None reference on a chain: dropped by th
   (model_res Wit.sc WitJ.q_noneref WitJ.wn = Some (Ok [6]) /\ answers Wit.sc WitJ.q_noneref WitJ.wn = Err AttrErr) /\
   f07 Wit.sc WitJ.q_noneref_or WitJ.wn = false.
 Proof. exact refuted_noneref. Qed.
-Theorem C07_refuted_setlit :       (* in_(p.x, {1, 2}): a set / frozenset container is bound as ONE parameter: the statement fails to execute *)
-  model_res Wit.sc WitJ.q_inset Wit.w = Some (Err TypeErr) /\ answers Wit.sc WitJ.q_inset Wit.w = Ok [1].
-Proof. exact refuted_setlit. Qed.
-Theorem C07_refuted_namedvar :     (* entity(f, b == f.parent), b a variable of a class with a name: DAO instance == column is False: no rows *)
-  model_res Wit.sc WitJ.q_namedvar Wit.w = Some (Ok []) /\ answers Wit.sc WitJ.q_namedvar Wit.w = Ok [10; 10; 11; 11] /\
-  translate Wit.sc WitJ.q_namedvar_right = TReject.
-Proof. exact refuted_namedvar. Qed.
+(* (7) a bare variable as comparison operand is never answered, in either order (was C07-e / C07-n) *)
+Theorem C07_rejects_var_operand : forall sc q op l r v,
+  q_cond q = Some (CCmp op l r) -> (l = OVar v \/ r = OVar v) -> forall s, translate sc q <> TOk s.
+Proof. exact rejects_var_operand. Qed.
+Example C07_fixed_setlit :         (* in_(p.x, {1, 2}) is IN (1, 2): inside F07, same rows (was C07-m) *)
+  f07 Wit.sc WitJ.q_inset Wit.w = true /\ model_res Wit.sc WitJ.q_inset Wit.w = Some (Ok [1]) /\ answers Wit.sc WitJ.q_inset Wit.w = Ok [1].
+Proof. exact fixed_setlit. Qed.
+Example C07_fixed_namedvar :       (* entity(f, b == f.parent) and entity(f, f.parent == b) are rejected (was C07-n) *)
+  translate Wit.sc WitJ.q_namedvar = TReject /\ translate Wit.sc WitJ.q_namedvar_right = TReject.
+Proof. exact fixed_namedvar. Qed.
 (* (6) a set_of query is rejected (was C07-k: AttributeError) *)
 Theorem C07_rejects_setof : forall sc q, q_setof q = true -> translate sc q = TReject.
 Proof. exact rejects_setof. Qed.
@@ -179,6 +182,5 @@ Print Assumptions C07_rejects_none_order.
 Print Assumptions C07_refuted_null.
 Print Assumptions C07_refuted_valueeq.
 Print Assumptions C07_refuted_noneref.
-Print Assumptions C07_refuted_setlit.
-Print Assumptions C07_refuted_namedvar.
+Print Assumptions C07_rejects_var_operand.
 Print Assumptions C07_rejects_setof.
